@@ -16,7 +16,7 @@
 (* [case, record index, reason] to `rej` (each reason once per case) and   *)
 (* checking goes on, so one rejection never hides the rest of the file.    *)
 (***************************************************************************)
-EXTENDS Ref, Json, IOUtils
+EXTENDS Ref, FDom, IOUtils
 
 Obs == ndJsonDeserialize(IOEnv.OBS)
 
@@ -204,6 +204,12 @@ GroupReasons(rec) ==
          [] cur.gcheck = "union" ->
               One(IF BagEquiv(h[1].res, Cat(2), Eq) THEN "" ELSE "group_union_differs")
 
+(* C18: one FiniteDomain operation *)
+DomReasons(rec) ==
+  LET A == DAbs(cur.a)
+      B == IF cur.op \in {"intersect", "diff", "is_disjoint", "eq"} THEN DAbs(cur.b) ELSE {}
+  IN One(IF DomAgrees(DomExpected(cur.op, A, B, cur.arg), rec.res) THEN "" ELSE "domain_op_wrong")
+
 -----------------------------------------------------------------------------
 Rec == Obs[l]
 
@@ -238,6 +244,9 @@ Next ==
           /\ Note(One(BalanceReason(I)))
           /\ fin' = IF Rec.k = "final" THEN Append(fin, I) ELSE fin
           /\ UNCHANGED <<cur, S, prevI, posted, got, nok, hist>>
+     ELSE IF Rec.k = "domop"
+     THEN /\ Note(DomReasons(Rec))
+          /\ UNCHANGED <<cur, S, prevI, posted, got, fin, nok, hist>>
      ELSE IF Rec.k = "end"
      THEN LET isProg == cur.kind = "program"
               why == (IF isProg /\ cur.mode = "query" THEN QueryEndReason(Rec)
